@@ -250,6 +250,10 @@ type %[1]sOut struct {
 		if r.Chance(40) {
 			b.WriteString("// goverter:default:update\n")
 		}
+		// zero-value guards apply when the fields are written onto FUNC's result (default:update, value -> pointer)
+		if r.Chance(35) {
+			b.WriteString("// goverter:" + rng.Pick(r, []string{"update:ignoreZeroValueField", "update:ignoreZeroValueField:basic", "update:ignoreZeroValueField:nillable"}) + "\n")
+		}
 		name := fmt.Sprintf("%sC%d", p, i)
 		b.WriteString("type " + name + " interface {\n")
 		b.WriteString("\t// goverter:default New" + p + "\n")
@@ -258,6 +262,9 @@ type %[1]sOut struct {
 		}
 		if r.Chance(25) {
 			b.WriteString("\t// goverter:default:update " + rng.Pick(r, []string{"yes", "no"}) + "\n")
+		}
+		if r.Chance(15) {
+			b.WriteString("\t// goverter:update:ignoreZeroValueField:basic\n")
 		}
 		res := sg[1]
 		if withErr {
